@@ -58,6 +58,7 @@ func cmdCheck(argv []string) {
 	budget := fs.Duration("budget", 0, "wall-clock budget override")
 	verbose := fs.Bool("v", false, "verbose")
 	noReplay := fs.Bool("noreplay", false, "skip native replay (debug)")
+	noEvidence := fs.Bool("noevidence", false, "do not write an evidence file (self-check)")
 	fs.Parse(argv)
 	if fs.NArg() < 1 {
 		fmt.Fprintln(os.Stderr, "usage: symgo check [flags] <property> [quick|thorough]")
@@ -351,7 +352,7 @@ func cmdCheck(argv []string) {
 		"samples":                       samples,
 		"evaluations":                   sum.AssertsOK + sum.AssertsTriv,
 		"distinct_nontrivial":           sum.DistinctSym,
-		"rule":                          "one case = one explored path class (distinct decision vector) of a harness; non-trivial = its assertion needed at least one solver query over symbolic inputs (asserts_discharged>0)",
+		"rule":                          "evaluations = assertions decided (by a solver query or by the solver-established path condition); one distinct case = one explored path class (distinct decision vector) of a harness; non-trivial = the path completed, has at least one symbolic input variable and a non-empty solver-checked path condition (so its verdict covers a set of inputs, not one input)",
 		"exhaustive":                    !sum.Truncated && nIncon == 0,
 		"explanation":                   spec.Note,
 		"harnesses":                     hs,
@@ -383,9 +384,11 @@ func cmdCheck(argv []string) {
 		"wall_s":      time.Since(start).Seconds(),
 		"violations":  confirmed - knownHit,
 	}
-	os.MkdirAll(filepath.Join(*verif, "evidence"), 0o755)
-	eb, _ := json.MarshalIndent(ev, "", " ")
-	os.WriteFile(filepath.Join(*verif, "evidence", prop+".json"), eb, 0o644)
+	if !*noEvidence {
+		os.MkdirAll(filepath.Join(*verif, "evidence"), 0o755)
+		eb, _ := json.MarshalIndent(ev, "", " ")
+		os.WriteFile(filepath.Join(*verif, "evidence", prop+".json"), eb, 0o644)
+	}
 
 	sort.SliceStable(lines, func(i, j int) bool { return false })
 	for _, l := range lines {
@@ -437,3 +440,52 @@ var propSpecs = map[string]propSpec{}
 var boundsText = map[string]string{}
 
 func cmdSelfcheck(argv []string) {}
+
+// cmdReplay re-runs a saved counterexample natively: exit 1 if it reproduces.
+func cmdReplay(argv []string) {
+	fs := flag.NewFlagSet("replay", flag.ExitOnError)
+	repo := fs.String("repo", "/repo", "repository")
+	verif := fs.String("verif", "/verif", "verif root")
+	fs.Parse(argv)
+	if fs.NArg() < 1 {
+		fmt.Fprintln(os.Stderr, "usage: symgo replay <file>")
+		os.Exit(2)
+	}
+	b, err := os.ReadFile(fs.Arg(0))
+	if err != nil {
+		fmt.Fprintln(os.Stderr, err)
+		os.Exit(2)
+	}
+	var rec struct {
+		Property string     `json:"property"`
+		Harness  string     `json:"harness"`
+		Tier     int        `json:"tier"`
+		Vector   []VecEntry `json:"vector"`
+		Kind     string     `json:"kind"`
+		Message  string     `json:"message"`
+	}
+	if err := json.Unmarshal(b, &rec); err != nil {
+		fmt.Fprintln(os.Stderr, err)
+		os.Exit(2)
+	}
+	harnessDir := filepath.Join(*verif, "harness")
+	ld, err := loadRepo(*repo, harnessDir, "verif")
+	if err != nil {
+		fmt.Fprintln(os.Stderr, "load:", err)
+		os.Exit(2)
+	}
+	res, log, err := replayNative(*repo, harnessDir, ld, []ReplayCase{{ID: "r", Harness: rec.Harness, Tier: rec.Tier, Vector: rec.Vector}}, 5*time.Minute)
+	if err != nil {
+		fmt.Fprintln(os.Stderr, err, log)
+		os.Exit(2)
+	}
+	r := res["r"]
+	out, _ := json.MarshalIndent(r, "", " ")
+	fmt.Println(string(out))
+	if r.Outcome == "done" {
+		fmt.Println("does not reproduce on this tree")
+		os.Exit(0)
+	}
+	fmt.Printf("VIOLATION property=%s replay=%s\n", rec.Property, fs.Arg(0))
+	os.Exit(1)
+}
